@@ -95,10 +95,11 @@ func (c14) Gen(r *Rand, sc *Scenario, tier string) {
 			}
 		case 5:
 			b := genContainerDoc(r, obj, memberCount(r), 800)
+			cut := b
 			if len(b) > 0 {
-				b = b[:r.Intn(len(b)+1)]
+				cut = b[:r.Intn(len(b)+1)]
 			}
-			d = docOf(b, "truncated")
+			d = docCut(r, b, cut, "truncated")
 		}
 		sc.Docs = append(sc.Docs, d)
 		op := Op{Kind: name, Doc: len(sc.Docs) - 1}
